@@ -238,9 +238,13 @@ def list_dotted_names(fn: Callable) -> Set[str]:
         extractor = ReferenceExtractor()
         extractor.visit(parsed)
         result = extractor.references
-        # Remove any local variables and cell variables
-        if hasattr(fn, "__code__"):
-            code_obj = fn.__code__
+        # Remove any local variables and cell variables. inspect.getsource returned the source
+        # of the innermost wrapped function, so these are the variables of that function.
+        source_fn = fn
+        while hasattr(source_fn, "__wrapped__"):
+            source_fn = source_fn.__wrapped__
+        if hasattr(source_fn, "__code__"):
+            code_obj = source_fn.__code__
             local_vars = set()  # type: Set[str]
             local_vars.update(code_obj.co_varnames)
             local_vars.update(code_obj.co_cellvars)
@@ -395,6 +399,11 @@ class HashRule(ABC):
         :param blacklist:  List of objects to exclude from dependency sets (recursively).
 
         """
+        # A decorated function is analysed as the function it wraps (its source and its code
+        # hash are those of the wrapped function), so its names are resolved where that
+        # function was defined, not in the module of the decorator
+        while hasattr(src_fn, "__wrapped__"):
+            src_fn = src_fn.__wrapped__
         if hasattr(src_fn, "__globals__"):
             global_table = src_fn.__globals__
         else:
